@@ -100,10 +100,10 @@ def run (op impl : String) : Ans :=
         let m := matchPrim o prim a0 a1 fold r
         let s := specPrim o prim a0 a1 fold r
         let absent :=
-          if prim.startsWith "req_header_value" then (assoc a0 headers).isNone
+          if prim.startsWith "req_header_value" then (assoc (canonKey a0) headers).isNone
           else if prim.startsWith "req_query_value" then (assoc a0 query).isNone
           else if prim == "req_ua_regmatch" then (assoc uaKey headers).isNone
-          else if prim == "res_header_value_in" then (match resp with | some p => (assoc a0 p.headers).isNone | none => false)
+          else if prim == "res_header_value_in" then (match resp with | some p => (assoc (canonKey a0) p.headers).isNone | none => false)
           else false
         let cls :=
           if absent then (if prim.endsWith "hash_in" then "missing-attr-hash" else "missing-attr-empty-pattern")
@@ -117,7 +117,10 @@ def run (op impl : String) : Ans :=
           else "FAIL:crash"
         let tags :=
           [prim, render m] ++ (if m.isSome then ["nt"] else []) ++ (if fold then ["fold"] else []) ++
-          (if absent then ["absent"] else [])
+          (if absent then ["absent"] else []) ++
+          (if a0.any (· ≥ 128) || a1.any (· ≥ 128) || path.any (· ≥ 128) then ["non-ascii"] else []) ++
+          (if (a0.contains 124 && (BfeVerif.C17.splitOn 124 a0).contains []) || (a1.contains 124 && (BfeVerif.C17.splitOn 124 a1).contains []) then ["empty-member"] else []) ++
+          (if (prim.startsWith "req_header" || prim.startsWith "res_header") && (BfeVerif.C17.splitOn 124 a0).any (fun k => canonKey k != k) then ["odd-case-key"] else [])
         { model := render m, verdict := verdict, tags := tags }
       | _, _, _, _, _, _, _, _, _ => { model := "bad-op", verdict := "skip" }
     | _, _, _, _, _, _, _, _, _, _, _ => { model := "bad-op", verdict := "skip" }
